@@ -73,6 +73,18 @@ def c13_cases(rng, tier):
                 cases.append(f"decode {hx(bs)}")
                 cases.append(f"stream {hx(bs)}")
                 oracles.append(f"o_rt_bytes {hx(bs)}")
+    # the group-level parsers and opcode types: every group x every byte x 0..9 trailing bytes
+    groups = []
+    for r in rows:
+        g = r["name"].split(".")[0]
+        if g not in groups:
+            groups.append(g)
+    for g in groups:
+        cases.append(f"gparse {g} x")
+        for b in range(256):
+            cases.append(f"gopcode {g} {b}")
+            for k in ((0, 1, 7, 8, 9) if tier == "quick" else range(0, 10)):
+                cases.append(f"gparse {g} " + hx(bytes([b]) + bytes((0xA0 + i) & 0xFF for i in range(k))))
     # all opcode pairs
     for a in rows:
         for b in rows:
@@ -128,6 +140,25 @@ def c14_cases(rng, tier):
             bs = bs[:i] + bytes([rng.choice([0, 0xFF, 0x0F, rng.randrange(256)])]) + bs[i:]
         cases.append(f"mapped {hx(bs)}")
         oracles.append(f"o_mapped {hx(bs)}")
+    # histories on one mapping: ops appended after the mapping has been read by index, listed, sliced
+    for _ in range(120 if tier == "quick" else 4000):
+        ops0 = rand_ops(rng, rows, rng.randrange(0, 5))
+        steps, n_ops = [], len(ops0)
+        for _ in range(rng.randrange(1, 9)):
+            r = rng.random()
+            if r < 0.35:
+                o = rand_ops(rng, rows, 1)
+                steps.append("p " + ops_toks(o).split(" ", 1)[1])
+                n_ops += 1
+            elif r < 0.65:
+                steps.append(f"g {rng.choice([0, n_ops - 1 if n_ops else 0, n_ops, n_ops + 1, rng.randrange(0, n_ops + 2)])}")
+            elif r < 0.8:
+                steps.append("a")
+            elif r < 0.92:
+                steps.append(f"f {rng.randrange(0, n_ops + 3)}")
+            else:
+                steps.append("b")
+        cases.append(f"mapseq {ops_toks(ops0)} {len(steps)} " + " ".join(steps))
     # execution through both access paths: jumps (incl. past the end), repeats, compute, state reads
     from . import gen_vm
     progs, _ = gen_vm.c09_cases(rng, tier)
@@ -189,6 +220,17 @@ def c15_cases(rng, tier):
             bs = ops_bytes(ops)
             cases.append(f"contains {E} {hx(bs)}")
             oracles.append(f"o_contains {E} {hx(bs)}")
+    # programs longer than any documented size (Program::MAX_SIZE = 10000 bytes is not enforced by the scan): an effect op
+    # only beyond byte 10000 / 16384 / 65536
+    for total in (9990, 9999, 10000, 10001, 10008, 10020, 16390, 32770, 65540, 70000):
+        for fill_push in (False, True):
+            e = rng.choice(eff_ops)
+            body = [(push, 0)] * (total // 9) if fill_push else [(plain[0], 0)] * total
+            ops = body + [(e, 0)]
+            for E in (63, 1 << min(eff_ops.index(e), 5)):
+                bs = ops_bytes(ops)
+                cases.append(f"contains {E} {hx(bs)}")
+                oracles.append(f"o_contains {E} {hx(bs)}")
     for _ in range(150 if tier == "quick" else 5000):
         ops = []
         for _ in range(rng.randrange(40, 400)):
